@@ -63,6 +63,23 @@ def fam_calls(maxops):
     }
 
 
+def fam_callraise(maxops):
+    """a completion-tracked event whose descendant is handled by a generator that raises in the step in which
+    it is resumed from a call() / a wait(): the descendant must still finish and let the ancestor complete"""
+    return {
+        'comps': {'1': {'chan': 'a'}},
+        'handlers': {
+            '1': _h(1, ['x0'], 0, {'x0': [['fire', {'name': 'x1'}], ['fire', {'name': 'x2', 'flags': 4}]]}),
+            '2': _h(1, ['x1'], 0, {'x1': [['call', {'name': 'x3'}, None], ['raise']]}),
+            '3': _h(1, ['x2'], 0, {'x2': [['fire', {'name': 'x3'}], ['wait', {'name': 'x3'}, None], ['raise']]}),
+            '4': _h(1, ['x3'], 0, {'x3': [['ret', 3]]}),
+            '5': _h(1, ['x0_complete', 'x2_complete'], 0, {}),
+        },
+        'ext': [{'name': 'x0', 'flags': 4}, {'name': 'x1', 'flags': 4}],
+        'ops': ['fire', 'tick'], 'pre': [], 'maxops': maxops, 'firers': [1], 'flushers': [1], 'dyn': [],
+    }
+
+
 RANDOM_OPTS = {
     'ncomp': 2, 'shapes': ['plain', 'class'], 'nhandlers': (3, 8), 'prios': [-1, 0, 0, 1],
     'kinds': ['named', 'named', 'named', 'catchall'], 'nnames': 4,
@@ -144,6 +161,8 @@ def run(tier, replay=None):
             {'name': 'generator-steps', 'programs': [fam_gensteps(2 if quick else 3)], 'hist_programs': [fam_gensteps(2 if quick else 3)],
              'hist_cap_quick': 600},
             {'name': 'calls', 'programs': [fam_calls(2 if quick else 3)], 'hist_programs': [fam_calls(2 if quick else 3)],
+             'hist_cap_quick': 300},
+            {'name': 'call-then-raise', 'programs': [fam_callraise(2 if quick else 3)], 'hist_programs': [fam_callraise(2 if quick else 3)],
              'hist_cap_quick': 300},
         ],
         'teeth': [{'name': 'tree/CancelLeak', 'programs': [fam_tree(2)], 'variants': {'CancelLeak': True},
